@@ -1,6 +1,7 @@
 //! Registry of property checks.
 use crate::engine::PropertyDef;
 
+pub mod c01;
 pub mod c02;
 pub mod c03;
 pub mod c04;
@@ -34,6 +35,7 @@ pub mod util;
 
 pub fn all() -> Vec<PropertyDef> {
     vec![
+        c01::def(),
         c02::def(),
         c03::def(),
         c04::def(),
@@ -68,6 +70,7 @@ pub fn all() -> Vec<PropertyDef> {
 /// Drivers that run inside an isolated worker process (`vp worker <mem-limit>`, pool protocol).
 pub fn worker_dispatch(kind: &str, payload: &[u8]) -> Vec<u8> {
     match kind {
+        "c01" => c01::worker(payload),
         "c18" => c18::worker(payload),
         "c20" => c20::worker(payload),
         _ => b"unknown worker kind".to_vec(),
